@@ -124,7 +124,11 @@ class ParsersWorld:
                     ddl, shape = workload.gen_followup(ro, workload.tables_of(cur["ddl"]))
                     it = {"ddl": ddl, "flags": dict(cur["flags"]), "run": dict(cur["run"]), "src": "gen:" + ",".join(shape)}
                 else:
-                    it = workload.pick_item(rw, swarm["p_corpus"])
+                    it = None
+                    if cur is not None and ro.random() < 0.3:
+                        it = workload.pick_related(ro, cur["src"])
+                    if it is None:
+                        it = workload.pick_item(rw, swarm["p_corpus"])
                 cur = it
                 last_kw = None
                 ops.append({"op": "new", "ddl": it["ddl"], "flags": it["flags"], "src": it["src"]})
@@ -486,7 +490,11 @@ class ParsersWorld:
                 ddl, shape = workload.gen_followup(ro, workload.tables_of(tasks[-1]["ddl"]))
                 it = {"ddl": ddl, "flags": dict(tasks[-1]["flags"]), "run": {}, "src": "gen:" + ",".join(shape)}
             else:
-                it = workload.pick_item(rw, swarm["p_corpus"], max_len=swarm["max_len"])
+                it = None
+                if t > 0 and share < 0.6:
+                    it = workload.pick_related(ro, tasks[-1]["src"], max_len=swarm["max_len"])
+                if it is None:
+                    it = workload.pick_item(rw, swarm["p_corpus"], max_len=swarm["max_len"])
             flags = dict(it["flags"])
             # make settings differ between neighbours: interference shows as using another's settings
             if t > 0 and it["src"].endswith("+same"):
